@@ -346,6 +346,11 @@ func runCase(r *core.Run, i int) {
 					r.Violation("selfref-table-multirow-delete-where:"+mode, w)
 					return
 				}
+				if deleteAllAsTruncate(sc, h, st, fp) {
+					w.What += " (DELETE without WHERE on a table whose only referencing key is its own: executed as TRUNCATE, the row-by-row RESTRICT/NO ACTION checks are skipped; no order of the rows passes them)"
+					r.Violation("selfref-delete-without-where-skips-restrict", w)
+					return
+				}
 				r.Violation("violating-"+st.kind+"-accepted:"+ocs[0].class+":"+actions, w)
 				return
 			default:
@@ -354,6 +359,11 @@ func runCase(r *core.Run, i int) {
 				if mode := staleSelfRefScan(sc, h, st, fp); mode != "" {
 					w.What += " (multi-row DELETE with a WHERE clause on a table with a self-referencing key: " + mode + ")"
 					r.Violation("selfref-table-multirow-delete-where:"+mode, w)
+					return
+				}
+				if replaceVictimSurvives(sc, h, st, obs) {
+					w.What += " (REPLACE whose new row conflicts with two rows of a table with a self-referencing key; the table is left with a duplicate unique key)"
+					r.Violation("selfref-replace-two-victims-leaves-duplicate-key", w)
 					return
 				}
 				r.Violation("wrong-effect-"+st.kind+":"+firedKey(ocs[0].f)+":"+actions, w)
@@ -522,6 +532,82 @@ func staleSelfRefScan(sc *schema, h *hist, st *stmt, fp string) string {
 	return ""
 }
 
+// replaceVictimSurvives is the matcher of known finding selfref-replace-two-victims-leaves-duplicate-key:
+// a REPLACE (checks on) into a table with a CASCADE / SET NULL self reference whose new row
+// conflicts with >= 2 existing rows, after which the table holds two rows with the same primary or
+// unique key.
+func replaceVictimSurvives(sc *schema, h *hist, st *stmt, obs [][][]string) bool {
+	if st.kind != "replace" || !h.checks {
+		return false
+	}
+	self := false
+	for _, f := range sc.fks {
+		if f.self() && f.child == st.t && !f.onDel.restrictive() {
+			self = true
+		}
+	}
+	if !self {
+		return false
+	}
+	m := &mexec{sc: sc, st: h.st, checks: true}
+	victims := 0
+	for _, x := range h.st.rows[st.t] {
+		if m.conflicts(st.t, x.vals, st.rows[0]) {
+			victims++
+		}
+	}
+	if victims < 2 {
+		return false
+	}
+	keys := append([][]int{{0}}, sc.tabs[st.t].uniques...)
+	for _, k := range keys {
+		seen := map[string]bool{}
+		for _, row := range obs[st.t] {
+			parts := make([]string, len(k))
+			null := false
+			for i, ci := range k {
+				parts[i] = row[ci]
+				if row[ci] == "NULL" {
+					null = true
+				}
+			}
+			if null {
+				continue
+			}
+			key := strings.Join(parts, ",")
+			if seen[key] {
+				return true
+			}
+			seen[key] = true
+		}
+	}
+	return false
+}
+
+// deleteAllAsTruncate is the matcher of known finding selfref-delete-without-where-skips-restrict:
+// DELETE without WHERE, checks on, on a table with a restrictive self-referencing key, which the
+// model rejects under every row order, and which the engine executes with exactly the effect of
+// checking the self reference only at the end of the statement.
+func deleteAllAsTruncate(sc *schema, h *hist, st *stmt, fp string) bool {
+	if st.kind != "delete" || st.where.kind != "all" || !h.checks {
+		return false
+	}
+	self := false
+	for _, f := range sc.fks {
+		if f.self() && f.child == st.t && f.onDel.restrictive() {
+			self = true
+		}
+	}
+	if !self {
+		return false
+	}
+	m := &mexec{sc: sc, st: h.st.clone(), o: ord{deferSelf: true}, checks: true}
+	if err := m.apply(st); err != nil {
+		return false
+	}
+	return "OK:"+m.st.fingerprint() == "OK:"+fp
+}
+
 // pinned replays the minimal witnesses of the known findings on every run. The engine's index scan
 // order is not deterministic, so the witness is tried on several fresh engines.
 func pinned(r *core.Run) {
@@ -543,6 +629,43 @@ func pinned(r *core.Run) {
 			fails = true
 			left = g.Lines(rows)
 		}
+		e.Close()
+	}
+	{
+		e := core.NewEng("d")
+		s := e.NewSess()
+		setup2 := []string{
+			"CREATE TABLE t4 (id INT PRIMARY KEY, f6 INT, CONSTRAINT fk6 FOREIGN KEY (f6) REFERENCES t4 (id) ON DELETE RESTRICT)",
+			"SET foreign_key_checks = 0",
+			"INSERT INTO t4 VALUES (4,8),(7,4),(8,7)",
+			"SET foreign_key_checks = 1",
+		}
+		for _, q := range setup2 {
+			s.MustExec(q)
+		}
+		res := s.Exec("DELETE FROM t4")
+		r.Eval(1)
+		r.Pinned("selfref-delete-without-where-skips-restrict",
+			"DELETE FROM t (no WHERE) on a table with an ON DELETE RESTRICT self reference whose rows form a reference cycle succeeds (executed as TRUNCATE); with WHERE id > 0 it is rejected",
+			!res.Failed(), map[string]any{"setup": setup2, "stmt": "DELETE FROM t4", "expected": "ERR 1451", "actual": g.Outcome(res)})
+		e.Close()
+	}
+	{
+		e := core.NewEng("d")
+		s := e.NewSess()
+		setup3 := []string{
+			"CREATE TABLE t5 (id INT PRIMARY KEY, k INT NOT NULL, f INT, UNIQUE KEY uq (k), CONSTRAINT fk5 FOREIGN KEY (f) REFERENCES t5 (id) ON DELETE SET NULL)",
+			"INSERT INTO t5 VALUES (3,2,NULL),(6,1,3),(8,4,6)",
+			"REPLACE INTO t5 VALUES (3,1,NULL)",
+		}
+		for _, q := range setup3 {
+			s.MustExec(q)
+		}
+		rows, _ := g.Scan(s, "t5", []string{"id", "k", "f"})
+		r.Eval(1)
+		r.Pinned("selfref-replace-two-victims-leaves-duplicate-key",
+			"REPLACE whose new row conflicts with two rows (primary key 3, unique key 1) of a self-referencing table, the second victim referencing the first with ON DELETE SET NULL, leaves the second victim in place: two rows with unique key 1",
+			len(rows) != 2, map[string]any{"setup": setup3, "expected": []string{"3|1|NULL", "8|4|NULL"}, "actual": g.Lines(rows)})
 		e.Close()
 	}
 	r.Eval(1)
